@@ -181,7 +181,18 @@ def sid_is_start_only(d, blk, sid_term):
     """Does the state id used at blk come only from start_state (never from next_state or a saved state)?"""
     b = d.b
     if not is_var(sid_term):
-        return False
+        # already the expression itself (e.g. the payload of start_state(..)?, spelled out)
+        t = peel_all(sid_term)
+        for _ in range(6):
+            if t[0] == 'try':
+                t = peel_all(t[1])
+            elif t[0] == 'f' and t[1][0] == 'dc' and t[1][2] in ('Ok', 'Continue', 'Some'):
+                t = peel_all(t[1][1])
+            elif is_call(t, r'Try::branch$'):
+                t = peel_all(t[2][0])
+            else:
+                break
+        return is_call(t, r'Automaton::start_state$')
     seen = set()
     work = [(sid_term[2], blk, 'term')]
     while work:
@@ -1214,7 +1225,7 @@ def r03_1(cx):
             if not (is_call(r0, r'Automaton::(start_state|next_state)$') or r0 == ('f', st, 'id')):
                 return False
         return True
-    okid = len(ids) >= 3 and all((is_agg(v, r'Option$', 'Some') and is_var(peel_all(v[3]['0'])) and b.locals[peel_all(v[3]['0'])[2]]['ty'].endswith('StateID') and state_value(peel_all(v[3]['0']), sb, ssi)) for sb, ssi, v in ids3)
+    okid = len(ids) >= 3 and all((is_agg(v, r'Option$', 'Some') and (not is_var(peel_all(v[3]['0'])) or b.locals[peel_all(v[3]['0'])[2]]['ty'].endswith('StateID')) and state_value(peel_all(v[3]['0']), sb, ssi)) for sb, ssi, v in ids3)
     exit_ids = [sb for sb, v in ids if sb not in d.loop and sb in b.reach(d.header)]
     # after a transition, no return may happen before the new state was saved (a later call resumes from state.id)
     rets_ok = [bi for bi, si, pl, st0 in b.stores() if si != 'term' and pl['l'] == 0 and not pl['pr'] and is_agg(b.rvalue_term(st0['r'], 0, bi), r'Result$', 'Ok')]
